@@ -48,6 +48,12 @@ int main(int argc, char** argv) {
 #if IN_PART(1)
   reg_sq<4>();
 #endif
+#if IN_PART(2) && CFG == 0
+  // integer determinant (ext/matrix_integer.inl dispatcher), traced at symbolic int32
+  add_unit_i32("idet_2", 4, 1, [](auto const* x, auto* o) { using T = TY(o); o[0] = glm::determinant(ldm<2, 2, T>(x)); });
+  add_unit_i32("idet_3", 9, 1, [](auto const* x, auto* o) { using T = TY(o); o[0] = glm::determinant(ldm<3, 3, T>(x)); });
+  add_unit_i32("idet_4", 16, 1, [](auto const* x, auto* o) { using T = TY(o); o[0] = glm::determinant(ldm<4, 4, T>(x)); });
+#endif
 #if IN_PART(2)
   // affineInverse: M is affine, i.e. its last row is (0,…,0,1); inputs are the other rows, column-major
   add_unit("affinv" SUF "_3", 6, 9, [](auto const* x, auto* o) { using T = TY(o);
